@@ -766,7 +766,7 @@ pub fn recovery(trace: &[Value]) -> Vec<Value> {
         let left: Vec<Value> = a
             .iter()
             .filter(|x| !in_b.contains(&(x.0, x.1)))
-            .map(|x| json!({"sp":x.0,"pn":x.1}))
+            .map(|x| json!({"sp":x.0,"pn":x.1,"size":x.2}))
             .collect();
         // acknowledged ranges carried by the delivered datagram
         let mut acked: Vec<Value> = Vec::new();
